@@ -13,7 +13,7 @@ pub static DEF: PropDef = PropDef {
     id: "C19",
     title: "The codec is pure",
     rule: "Call histories of 200..1200 calls over a pool of 8..24 generated operations: message decode under any options (G-wire inputs, accepted control messages with several AVPs always among them), bare \
-AVP-list decode, message / AVP encode, hide, reveal, and rendering of the returned errors. (silence) while the history runs, file descriptors 1 and 2 of the process are redirected to a memory file: any octet \
+AVP-list decode, message / AVP encode, hide, reveal, and rendering of the returned errors; half of the pools contain the same hidden value revealed (and the same AVP hidden) under related secrets, a third a control message with 65..104 undecodable records. (silence) while the history runs, file descriptors 1 and 2 of the process are redirected to a memory file: any octet \
 captured is a violation, and the offending call is isolated by re-running the distinct operations one at a time. (history independence) every call in a random order with repetitions returns the result \
 it returned in the canonical first pass. (threads) 8 threads run different orders concurrently and every result equals the single-threaded one. Non-trivial = the history contains an accepted control message \
 with at least one AVP and at least 2 distinct kinds of call; distinct by hash of the pool.",
@@ -116,6 +116,31 @@ pub fn gen_pool(t: &mut Tape) -> Vec<Op> {
     let e = encode_message(&m);
     pool.push(Op::Decode(e.clone(), STRICT));
     pool.push(Op::Decode(e, DEFAULT_OPTS));
+    // a control message with more than 64 undecodable records carrying different values (long error lists)
+    if t.chance(30) {
+        let nb = 65 + t.below(40);
+        let mut body = Vec::new();
+        encode_avp(&msg_type_avp(t), &mut body);
+        for i in 0..nb {
+            let v = (i + 1) as u16;
+            body.extend_from_slice(&[0x01, 0x06]);
+            body.extend_from_slice(&v.to_be_bytes());
+            body.extend_from_slice(&[0, 7]);
+        }
+        pool.push(Op::Decode(control_around(t, &body), STRICT));
+    }
+    // the same hidden value revealed under related secrets (a weak cache key would confuse them)
+    if t.chance(50) {
+        let h = gen_hide(t);
+        let v = hide(h.avp.attr, &h.payload, &h.secret, &h.rv, &h.lp, &h.ap);
+        let s2 = related_secret(t, &h.secret);
+        let s3 = related_secret(t, &h.secret);
+        pool.push(Op::Reveal(h.avp.attr, v.clone(), h.secret.clone(), h.rv));
+        pool.push(Op::Reveal(h.avp.attr, v.clone(), s2.clone(), h.rv));
+        pool.push(Op::Reveal(h.avp.attr, v, s3, h.rv));
+        pool.push(Op::Hide(h.avp.clone(), h.secret.clone(), h.rv, h.lp.clone()));
+        pool.push(Op::Hide(h.avp, s2, h.rv, h.lp));
+    }
     while pool.len() < n {
         let op = match t.below(9) {
             0 | 1 => {
